@@ -100,6 +100,15 @@ class Ctx:
         if what not in self.kf_printed:
             self.kf_printed.append(what)
 
+    def known_class(self, cls, example, replay_data):
+        """A failing input that Coq placed in a known-finding class: KNOWN-FINDING if the committed
+        file lists the class for this property, a violation otherwise."""
+        for f in vlib.known_findings(self.pid):
+            if f.get("class") == cls:
+                self.known("%s [class %s] e.g. %s" % (f["what"], cls, example))
+                return
+        self.fail("failing input in class %s, which known_findings.json does not list" % cls, replay_data)
+
     def finish_proof(self):
         """Call at the end: if a proof obligation broke and no failing input was found by the
         searches, report it as no-failing-input-found."""
